@@ -69,3 +69,28 @@ Example C02_example :
       [(TP,0);(TP,0);(TP,0);(TP,0);(TP,0);(TP,0);(TW,9);(TW,0);(TW,0);(TC,1);(TC,0);(TC,0);(TW,0);(TW,0);(TW,0);(TC,0);(TC,9);(TC,0);(TC,0)] in
   clog v = [31; 41].
 Proof. vm_compute. reflexivity. Qed.
+
+(** JOINED CONSERVATION (second sentence of the property; Conc/ConcExtras.v): at every moment, and in particular once all threads are between
+    operations, consumed ++ still-in-buffer (ring order, consumer to producer) = the accepted pushes, the worker's transformation applied
+    exactly to the released ones *)
+Require MRB.Conc.ConcExtras.
+Theorem C02_conservation_any_time :
+  forall (len : nat) (pv f init : nat -> nat) (script : list (RA3.tid * nat * nat)), 0 < len -> let '(c, v) := RA3nvalues.vexec_n len pv f (RA3n.init3_n len) (RA3nvalues.vinit0 len init) script in c = RA3n.exec3_n len (RA3n.init3_n len) script /\ (RA3nvalues.clog v ++ ConcExtras.ThreeStage.ring3 len v (RA3nvalues.fr (RA3n.C3 c)) (RA3nvalues.fr (RA3n.P3 c)))%list = List.map (ConcExtras.ThreeStage.item3 pv f (RA3nvalues.fr (RA3n.W3 c))) (List.seq len (RA3nvalues.fr (RA3n.P3 c) - len)).
+Proof. exact ConcExtras.ThreeStage.conservation_3n_any_time. Qed.
+Print Assumptions C02_conservation_any_time.
+
+Theorem C02_joined_conservation :
+  forall (len : nat) (pv f init : nat -> nat) (script : list (RA3.tid * nat * nat)), 0 < len -> let '(c, v) := RA3nvalues.vexec_n len pv f (RA3n.init3_n len) (RA3nvalues.vinit0 len init) script in RA3n.pc3 (RA3n.P3 c) = 0 -> RA3n.pc3 (RA3n.W3 c) = 0 -> RA3n.pc3 (RA3n.C3 c) = 0 -> (RA3nvalues.clog v ++ ConcExtras.ThreeStage.ring3 len v (RA3n.pos3 (RA3n.C3 c)) (RA3n.pos3 (RA3n.P3 c)))%list = List.map (ConcExtras.ThreeStage.item3 pv f (RA3n.pos3 (RA3n.W3 c))) (List.seq len (RA3n.pos3 (RA3n.P3 c) - len)).
+Proof. exact ConcExtras.ThreeStage.joined_conservation_3n. Qed.
+Print Assumptions C02_joined_conservation.
+
+Theorem C02_joined_conservation_caught_up :
+  forall (len : nat) (pv f init : nat -> nat) (script : list (RA3.tid * nat * nat)), 0 < len -> let '(c, v) := RA3nvalues.vexec_n len pv f (RA3n.init3_n len) (RA3nvalues.vinit0 len init) script in RA3n.pc3 (RA3n.P3 c) = 0 -> RA3n.pc3 (RA3n.W3 c) = 0 -> RA3n.pc3 (RA3n.C3 c) = 0 -> RA3n.pos3 (RA3n.W3 c) = RA3n.pos3 (RA3n.P3 c) -> (RA3nvalues.clog v ++ ConcExtras.ThreeStage.ring3 len v (RA3n.pos3 (RA3n.C3 c)) (RA3n.pos3 (RA3n.P3 c)))%list = List.map (fun p : nat => f (pv p)) (List.seq len (RA3n.pos3 (RA3n.P3 c) - len)).
+Proof. exact ConcExtras.ThreeStage.joined_conservation_3n_caught_up. Qed.
+Print Assumptions C02_joined_conservation_caught_up.
+
+Theorem C02_joined_conservation_detached :
+  forall (len : nat) (pv init : nat -> nat) (script : list (bool * RAx.cmd)), 0 < len -> (forall j : nat, ~ List.In (false, RAx.Reset j) script) -> let c := RAx.exec_x len (RAx.init_x len) script in let v := RAxvalues.vrun len pv init script in RAx.pc (RAx.P c) = 0 -> RAx.pc (RAx.C c) = 0 -> (RAxvalues.clog v ++ ConcExtras.Extended.ringx len v (RAx.pos (RAx.C c)) (RAx.pos (RAx.P c)))%list = List.map pv (List.seq len (RAx.pos (RAx.P c) - len)).
+Proof. exact ConcExtras.Extended.joined_conservation_x. Qed.
+Print Assumptions C02_joined_conservation_detached.
+
